@@ -15,13 +15,18 @@
 (*          the URI: the payload legitimately travels in the clear)        *)
 (*   fault  "none", "tamper" (one ciphertext octet altered), "wrongkey"    *)
 (*          (receiver holds a different key), "uriswap" (ciphertext        *)
-(*          delivered under the envelope of another, equally keyed URI)    *)
+(*          delivered under the envelope of another, equally keyed URI -   *)
+(*          unrelated, a string prefix or an extension of the right one;   *)
+(*          for "result": the genuine result of another procedure handed   *)
+(*          to the caller), "unencodable" (the sender's payload holds a    *)
+(*          value the serializer inside the box cannot encode although the *)
+(*          transport's could: it must not travel in clear instead)        *)
 (***************************************************************************)
 EXTENDS Naturals, TLC
 
 Dirs == {"publish", "call", "result", "error", "progress"}
 Layouts == {"default", "prefix", "split", "nokey"}
-Faults == {"none", "tamper", "wrongkey", "uriswap"}
+Faults == {"none", "tamper", "wrongkey", "uriswap", "unencodable"}
 
 Keyed(layout) == layout # "nokey"
 
@@ -34,6 +39,12 @@ Expect(dir, layout, fault) ==
   IF ~Keyed(layout) \/ fault = "none"
   THEN [enc |-> Keyed(layout), delivered |-> "exact",
         call |-> CASE dir = "publish" -> "na" [] dir = "error" -> "apperror" [] OTHER -> "ok"]
+  ELSE IF fault = "unencodable"
+  THEN [enc |-> TRUE, delivered |-> "none",           \* nothing (or nothing readable) is sent
+        call |-> CASE dir = "publish" -> "na"
+                   [] dir = "call" -> "refused"        \* call() itself fails, nothing was sent
+                   [] OTHER -> "notok"]                \* the callee could not send its result / error: whatever the caller
+                                                      \* gets, it is not a successful result
   ELSE [enc |-> TRUE, delivered |-> "none",
         call |-> CASE dir = "publish" -> "na"
                    [] dir = "progress" -> "ok"        \* on_progress is not fired; the untouched final result completes the call
@@ -46,5 +57,6 @@ Next == UNCHANGED vars
 Spec == Init /\ [][Next]_vars
 \* never both: altered payload delivered, or a faulted call reported as success
 NeverAltered == Expect(dir, layout, fault).delivered \in {"exact", "none"}
-FaultNeverSucceeds == (Keyed(layout) /\ fault # "none" /\ dir \notin {"publish", "progress"}) => Expect(dir, layout, fault).call = "encerror"
+FaultNeverSucceeds == (Keyed(layout) /\ fault \notin {"none", "unencodable"} /\ dir \notin {"publish", "progress"}) => Expect(dir, layout, fault).call = "encerror"
+NeverClear == Keyed(layout) => Expect(dir, layout, fault).enc
 =============================================================================
